@@ -132,8 +132,8 @@ func ruleOwnCloseForwards(c *Ctx, r *R) {
 			return 0, false
 		}
 		pf.Edge = func(f *ssa.Function, g guard, q int) (StateSet, bool) {
-		b := g.blk
-		_ = b
+			b := g.blk
+			_ = b
 			cf, ok := g.asCmp()
 			if !ok || cf.op != token.EQL {
 				return 0, false
@@ -163,7 +163,9 @@ func ruleOwnCloseForwards(c *Ctx, r *R) {
 }
 
 // C09.field-discipline: inside the methods of a wrapper other than Close, per stream-shaped field:
-//   state 0 = live (holds a stream that is not closed), 1 = closed but still stored, 2 = nil / freshly replaced.
+//
+//	state 0 = live (holds a stream that is not closed), 1 = closed but still stored, 2 = nil / freshly replaced.
+//
 // Violations: Close in state 1 (double close), Next/Peek in state 1 (use after close), overwrite in state 0
 // (dropped without Close) unless the field is known nil by a dominating guard, return in state 1 (the wrapper's
 // Close would close it a second time, and the next Next would use it after Close).
@@ -309,8 +311,8 @@ func ruleOwnFieldDiscipline(c *Ctx, r *R) {
 				return 0, false
 			}
 			pf.Edge = func(f *ssa.Function, g guard, q int) (StateSet, bool) {
-		b := g.blk
-		_ = b
+				b := g.blk
+				_ = b
 				cf, ok := g.asCmp()
 				if !ok {
 					return 0, false
